@@ -285,6 +285,10 @@ def layered(inp):
             fi = np.ones(frequencies.size, dtype=bool)
             freqs = frequencies
 
+        # Receivers relative to the source: use their absolute position.
+        if rec.relative:
+            rec = type(rec)(rec.coordinates_abs(src), data_type=rec.data_type)
+
         # Get 1D model.
         # Note: if method='source', this would be faster outside the loop.
         oned, imat = model.extract_1d(**_get_points(method, src, rec), **lopts)
